@@ -83,6 +83,10 @@ def shaped():
     res.append(af(5, [(1, 2), (2, 1), (2, 3), (3, 4), (4, 5), (5, 3)], "evenodd"))
     # x in every preferred extension but not grounded, plus an independent choice in the same component
     res.append(af(7, [(1, 2), (2, 1), (1, 3), (2, 3), (3, 4), (5, 6), (6, 5), (5, 7), (6, 7), (7, 7), (7, 3)], "allpr"))
+    # a choice (a<->b) whose both sides defeat c, followed by a chain: arguments in every preferred extension that are not ideal
+    for k in (1, 2, 3, 4, 5):
+        res.append(af(3 + k, [(1, 2), (2, 1), (1, 3), (2, 3)] + [(2 + i, 3 + i) for i in range(1, k + 1)], "choicechain%d" % k))
+    res.append(af(8, [(1, 2), (2, 1), (1, 3), (2, 3), (3, 4), (4, 5), (5, 6), (6, 7), (7, 8), (8, 7)], "choicechain_cycle"))
     # several incomparable maximal sets
     res.append(af(6, [(1, 2), (2, 1), (3, 4), (4, 3), (5, 6), (6, 5), (1, 3), (3, 5)], "threechoices"))
     res.append(af(6, [(1, 2), (2, 1), (2, 3), (3, 4), (4, 2), (4, 5), (5, 6), (6, 5)], "mixed6"))
